@@ -46,7 +46,8 @@ PROPS['C01'] = {
                  'Yabgp.C01_keepalive_msg', 'Yabgp.C01_keepalive_bad_length', 'Yabgp.C01_update_msg',
                  'Yabgp.C01_notification_msg', 'Yabgp.C01_route_refresh_msg',
                  'Yabgp.C01_established_only_via_keepalive', 'Yabgp.C01_openconfirm_only_via_open',
-                 'Yabgp.C04_framing_violation', 'Yabgp.C01_reachable_session_is_normal'],
+                 'Yabgp.C04_framing_violation', 'Yabgp.C01_reachable_session_is_normal',
+                 'Yabgp.C01_no_stale_timers', 'Yabgp.C01_timer_expiry_states'],
     'genagree': SESSION_GEN,
     'suites': ['session'],
     'cannot': SESSION_CANNOT,
@@ -55,7 +56,9 @@ PROPS['C01'] = {
                   'session state: C01_reachable_session_is_normal, by the skeleton invariants over all histories) and every '
                   'message body / timer / operator event they give the next state, the NOTIFICATION code and sub-code, '
                   'the OPEN/KEEPALIVE emitted and the close decision; Established and OpenConfirm are shown to be '
-                  'entered by no other message than KEEPALIVE-in-OpenConfirm resp. a valid OPEN-in-OpenSent. The model '
+                  'entered by no other message than KEEPALIVE-in-OpenConfirm resp. a valid OPEN-in-OpenSent; no hold or keepalive '
+                  'timer of an ended session is left running in any reachable state (C01_no_stale_timers), so a timer expiry '
+                  'only ever happens in a state where RFC 4271 has that timer running (C01_timer_expiry_states). The model '
                   'is tied to /repo by a per-event differential correspondence (BFS over the event alphabet + random '
                   'walks) and the RFC table is evaluated on the real implementation as an oracle.',
 }
